@@ -524,3 +524,11 @@ def rule_guard(ctx, R):
 
 
 RULES.append(("C02.GUARD", "pre-execution never pops from the I/O stacks: every pop below optimize() is dominated by index > 2 (shared with C10; a pop from stack 1/2 during optimisation ends the process)", rule_guard))
+
+
+def rule_levels(ctx, R):
+    from . import p_c03
+    return p_c03.rule_levels(ctx, R)
+
+
+RULES.append(("C02.LEVELS", "the level chosen on the command line selects the optimised / unoptimised path and reaches optimize() unchanged (shared with C03.LEVELS)", rule_levels))
